@@ -16,26 +16,33 @@
 (* copy already has (delta_update with no deltas, base.rs:1066): the       *)
 (* replay runs both after the copy expired and expects the next failed     *)
 (* update to find a current copy.                                          *)
-EXTENDS Naturals
+EXTENDS Naturals, Sequences
 
-CONSTANT Variant     \* "as_documented" | "mutant" (the policy "new" also falls back from an expired copy)
+CONSTANTS Variant,   \* "as_documented" | "mutant" (the policy "new" also falls back from an expired copy)
                      \* | "snapshot_first_removes" (the copy is removed before the new snapshot has arrived)
+          MaxRuns    \* validation runs in a row (the copy is what the runs share)
 
 Policies == {"never", "stale", "new"}
 Outcomes == {"updated", "current", "stale", "unavailable"}
-(* What is on disk before the run, and how this run's update goes.  The outcome is not an input: try_update          *)
+(* What is on disk before a run, and how the run's update goes.  The outcome is not an input: try_update            *)
 (* (rrdp/base.rs:771) derives it from these two.  A failing update may fail at the notification file (no further     *)
 (* request is made) or later, after a good notification, at the snapshot it needs (new session: no deltas to try);   *)
-(* a failing delta alone is no failure, the update goes on with the snapshot.                                         *)
+(* a failing delta alone is no failure, the update goes on with the snapshot.  A successful update leaves a current  *)
+(* copy, a failed one leaves the copy as it was: `ideal` is the copy as the property's reader thinks of it, `copy`   *)
+(* is what the update procedure really leaves on disk (the same in the variant "as_documented").                     *)
 Copies  == {"none", "current", "expired"}
 Results == {"ok", "notify_fails", "snapshot_fails", "delta_fails"}
 
-VARIABLES policy, copy, result, outcome, rrdpOn, rsyncOn, notify, decision, rrdpAsked, done
-vars == <<policy, copy, result, outcome, rrdpOn, rsyncOn, notify, decision, rrdpAsked, done>>
+VARIABLES policy, rrdpOn, rsyncOn, notify,        \* configuration and CA, fixed
+          copy, ideal,                            \* the local copy: on disk / as it should be
+          phase, n, result, before, outcome, decision, rrdpAsked,
+          hist                                    \* the runs so far (for the export)
+vars == <<policy, rrdpOn, rsyncOn, notify, copy, ideal, phase, n, result, before, outcome, decision, rrdpAsked, hist>>
+fixed == <<policy, rrdpOn, rsyncOn, notify>>
 
 (* The documented table (the property). *)
-Documented(p, o, rrdp, rsync, n) ==
-  IF ~n THEN (IF rsync THEN "rsync" ELSE "none")
+Documented(p, o, rrdp, rsync, nt) ==
+  IF ~nt THEN (IF rsync THEN "rsync" ELSE "none")
   ELSE IF ~rrdp THEN (IF rsync THEN "rsync" ELSE "none")
   ELSE IF o = "updated" THEN "rrdp"
   ELSE IF o = "current" THEN "none"
@@ -51,28 +58,36 @@ OutcomeOf(c, r) ==
   ELSE CASE c = "none" -> "unavailable" [] c = "current" -> "current" [] c = "expired" -> "stale"
 
 Init ==
-  /\ policy \in Policies /\ copy \in Copies /\ result \in Results
-  /\ (result = "delta_fails" => copy # "none")          \* deltas are only tried on top of a copy
+  /\ policy \in Policies /\ copy \in Copies /\ ideal = copy
   /\ rrdpOn \in BOOLEAN /\ rsyncOn \in BOOLEAN /\ notify \in BOOLEAN
-  /\ outcome = "pending" /\ decision = "pending" /\ rrdpAsked = FALSE /\ done = FALSE
+  /\ phase = "idle" /\ n = 0 /\ result = "none" /\ before = "none"
+  /\ outcome = "pending" /\ decision = "pending" /\ rrdpAsked = FALSE /\ hist = <<>>
 
 RsyncOrNone == IF rsyncOn THEN "rsync" ELSE "none"
 
-(* try_update: a failed update leaves the copy as it was and classifies it (base.rs:771-860) *)
-CopyAtClassification ==
-  IF Variant = "snapshot_first_removes" /\ result = "snapshot_fails" THEN "none" ELSE copy
+(* a validation run comes to the CA *)
+StartRun(r) ==
+  /\ phase = "idle" /\ n < MaxRuns
+  /\ (r = "delta_fails" => ideal # "none")          \* deltas are only tried on top of a copy
+  /\ result' = r /\ before' = ideal /\ phase' = "update" /\ n' = n + 1
+  /\ outcome' = "pending" /\ decision' = "pending" /\ rrdpAsked' = FALSE
+  /\ UNCHANGED <<fixed, copy, ideal, hist>>
 
+(* try_update: classifies by the copy found when the update began (base.rs:789-837); a failed update leaves it alone *)
 TryUpdate ==
-  /\ outcome = "pending" /\ ~done
-  /\ outcome' = IF result \in {"ok", "delta_fails"} THEN "updated"
-                ELSE CASE CopyAtClassification = "none"    -> "unavailable"
-                       [] CopyAtClassification = "current" -> "current"
-                       [] CopyAtClassification = "expired" -> "stale"
-  /\ UNCHANGED <<policy, copy, result, rrdpOn, rsyncOn, notify, decision, rrdpAsked, done>>
+  /\ phase = "update" /\ phase' = "decide"
+  /\ IF notify /\ rrdpOn
+       THEN /\ outcome' = OutcomeOf(copy, result)
+            /\ ideal' = IF result \in {"ok", "delta_fails"} THEN "current" ELSE ideal
+            /\ copy'  = IF result \in {"ok", "delta_fails"} THEN "current"
+                        ELSE IF Variant = "snapshot_first_removes" /\ result = "snapshot_fails" THEN "none"
+                        ELSE copy
+       ELSE outcome' = "notasked" /\ UNCHANGED <<copy, ideal>>                \* base.rs:194-196: RRDP is not asked at all
+  /\ UNCHANGED <<fixed, n, result, before, decision, rrdpAsked, hist>>
 
 (* Run::repository, branch by branch *)
 Repository ==
-  /\ ~done /\ done' = TRUE /\ outcome # "pending"
+  /\ phase = "decide" /\ phase' = "idle"
   /\ rrdpAsked' = (notify /\ rrdpOn)                                        \* base.rs:194-196
   /\ decision' =
        IF notify /\ rrdpOn
@@ -82,11 +97,16 @@ Repository ==
                 [] outcome = "current"     -> "none"                                             \* :220-224
                 [] outcome = "updated"     -> "rrdp"                                             \* :225-228
          ELSE RsyncOrNone                                                                        \* :233-240
-  /\ UNCHANGED <<policy, copy, result, outcome, rrdpOn, rsyncOn, notify>>
+  /\ hist' = Append(hist, [result |-> result, before |-> before, outcome |-> OutcomeOf(before, result),
+                           decision |-> Documented(policy, OutcomeOf(before, result), rrdpOn, rsyncOn, notify)])
+  /\ UNCHANGED <<fixed, copy, ideal, n, result, before, outcome>>
 
-Next == TryUpdate \/ Repository
+Next == (\E r \in Results : StartRun(r)) \/ TryUpdate \/ Repository
 Spec == Init /\ [][Next]_vars
 
-C29_FollowsTable == done => decision = Documented(policy, OutcomeOf(copy, result), rrdpOn, rsyncOn, notify)
-C29_RrdpOnlyIfAnnouncedAndEnabled == done => (rrdpAsked <=> (notify /\ rrdpOn))
+Decided == phase = "idle" /\ n > 0
+C29_FollowsTable == Decided => decision = Documented(policy, OutcomeOf(before, result), rrdpOn, rsyncOn, notify)
+C29_RrdpOnlyIfAnnouncedAndEnabled == Decided => (rrdpAsked <=> (notify /\ rrdpOn))
+(* what the table silently relies on: a failed update does not touch the copy *)
+CopyOnlyChangedBySuccess == copy = ideal
 =============================================================================
